@@ -16,8 +16,16 @@ pub struct PropagationContextMut<'a> {
     pub constraint: Ghost<Model>,
 }
 
+// "the variable is fixed in the current store": all live assignments give it the same value.  Stated through
+// a chosen value so that the quantifier has a single bound variable (no quadratic instantiation).
+pub open spec fn all_eq<V: IntegerVariable>(live: Live, v: &V, k: int) -> bool {
+    forall|x: Asg| #[trigger] live(x) ==> v.eval(x) == k
+}
+pub open spec fn fixed_value<V: IntegerVariable>(live: Live, v: &V) -> int {
+    choose|k: int| all_eq(live, v, k)
+}
 pub open spec fn fixed_in<V: IntegerVariable>(live: Live, v: &V) -> bool {
-    forall|x: Asg, y: Asg| live(x) && live(y) ==> v.eval(x) == v.eval(y)
+    all_eq(live, v, fixed_value(live, v))
 }
 
 impl<'a> PropagationContextMut<'a> {
@@ -29,7 +37,7 @@ impl<'a> PropagationContextMut<'a> {
     #[verifier::external_body]
     pub fn lower_bound<V: IntegerVariable>(&self, var: &V) -> (r: i32)
         ensures r == self.lb(var),
-                forall|a: Asg| (self.live())(a) ==> #[trigger] var.eval(a) >= r,
+                forall|a: Asg| #![trigger (self.live())(a)] (self.live())(a) ==> var.eval(a) >= r,
                 // the bound is attained (bounds are never holes) unless the store is empty
                 !live_empty(self.live()) ==> exists|a: Asg| #![trigger (self.live())(a)] (self.live())(a) && var.eval(a) == r,
     { unimplemented!() }
@@ -37,7 +45,7 @@ impl<'a> PropagationContextMut<'a> {
     #[verifier::external_body]
     pub fn upper_bound<V: IntegerVariable>(&self, var: &V) -> (r: i32)
         ensures r == self.ub(var),
-                forall|a: Asg| (self.live())(a) ==> #[trigger] var.eval(a) <= r,
+                forall|a: Asg| #![trigger (self.live())(a)] (self.live())(a) ==> var.eval(a) <= r,
                 !live_empty(self.live()) ==> exists|a: Asg| #![trigger (self.live())(a)] (self.live())(a) && var.eval(a) == r,
     { unimplemented!() }
 
@@ -45,15 +53,21 @@ impl<'a> PropagationContextMut<'a> {
     pub fn is_fixed<V: IntegerVariable>(&self, var: &V) -> (r: bool)
         ensures r ==> fixed_in(self.live(), var),
                 fixed_in(self.live(), var) && !live_empty(self.live()) ==> r,
+                r == (self.lb(var) == self.ub(var)),
     {
         let l = self.lower_bound(var);
         let u = self.upper_bound(var);
+        proof {
+            if l == u {
+                assert(all_eq(self.live(), var, l as int));
+            }
+        }
         l == u
     }
 
     #[verifier::external_body]
     pub fn contains<V: IntegerVariable>(&self, var: &V, value: i32) -> (r: bool)
-        ensures !r ==> forall|a: Asg| (self.live())(a) ==> #[trigger] var.eval(a) != value,
+        ensures !r ==> forall|a: Asg| #![trigger (self.live())(a)] (self.live())(a) ==> var.eval(a) != value,
     { unimplemented!() }
 
     // ---- pruning: core (assumed) + verified wrapper deriving the soundness facts ----
